@@ -36,6 +36,15 @@ def gen(chk):
             data = b32(base) + bytes([fail_at])
             for op in ('ecdsa_sign', 'ecdsa_sign_recoverable'):
                 chk.add('%s #%d %s %s %s' % (op, 3 if fail_at != 255 else 2, h32(m), h32(d), data.hex()), 'sign_custom_nonce')
+    # a first attempt that is REJECTED after r and s were computed (s = 0: the message is -r*d), followed by a failing
+    # or a succeeding retry: the failure output must still be all-zero, the success must be the retry's signature
+    for i in range(chk.scale(10, 120)):
+        d = r.seckey(); k = r.seckey(); R = mul(k, G); rr = R[0] % N; m = (-rr * d) % N
+        mm = m + N if (r.chance(1, 4) and m + N < (1 << 256)) else m
+        for fail_at in (1, 2, 255):
+            data = b32(k) + bytes([fail_at])
+            for op in ('ecdsa_sign', 'ecdsa_sign_recoverable'):
+                chk.add('%s #%d %s %s %s' % (op, 3 if fail_at != 255 else 2, h32(mm), h32(d), data.hex()), 'sign_s_zero_then_retry')
     # --- verification: valid signatures with chosen s (solve for the message), boundary s values
     half = N // 2
     svals = [1, 2, half - 1, half, half + 1, half + 2, N - 1, N - 2, 0]
